@@ -4,8 +4,8 @@ Line protocol for C33 (stateless).
 
 ```
 fmt x<hex bytes>                       -> the canonical text of those bytes (formatUUID)
-s3 prefix=x<hex> draw=x<hex 16 bytes>  -> the S3 object key for that draw
-gcs prefix=x<hex> uuid=x<hex 16 bytes> zstd=<0|1> -> the GCS object key
+s3 prefix=x<hex> draw=x<hex 16 bytes>|!  -> the S3 object key for that draw (`!` = the entropy read failed: `refused`)
+gcs prefix=x<hex> uuid=x<hex 16 bytes>|! zstd=<0|1> -> the GCS object key, or `refused`
 ```
 -/
 namespace Vgi.Drive.C33
@@ -18,19 +18,27 @@ def kv (ws : List String) (k : String) : Option String :=
 
 def charsOf (b : Bytes) : List Char := b.map fun x => Char.ofNat x.toNat
 
+def parseDraw (s : String) : Option (Option Bytes) :=
+  if s = "!" then some none else (parseHexArg s).map some
+
+def showKey : Option (List Char) → String
+  | some k => String.ofList k
+  | none => "refused"
+
 def step (st : Unit) (ws : List String) : Unit × String :=
   match ws with
   | ["fmt", h] => match parseHexArg h with
     | some b => (st, String.ofList (formatUUID b))
     | none => (st, "bad-op")
-  | "s3" :: rest => match (kv rest "prefix") >>= parseHexArg, (kv rest "draw") >>= parseHexArg with
-    | some p, some d => (st, String.ofList (s3Key (charsOf p) d))
+  | "s3" :: rest =>
+    match (kv rest "prefix") >>= parseHexArg, (kv rest "draw") >>= parseDraw with
+    | some p, some d => (st, showKey (s3Upload (charsOf p) d))
     | _, _ => (st, "bad-op")
   | "gcs" :: rest =>
-    match (kv rest "prefix") >>= parseHexArg, (kv rest "uuid") >>= parseHexArg, kv rest "zstd" with
+    match (kv rest "prefix") >>= parseHexArg, (kv rest "uuid") >>= parseDraw, kv rest "zstd" with
     | some p, some u, some z =>
-      if z = "1" then (st, String.ofList (gcsKey (charsOf p) u true))
-      else if z = "0" then (st, String.ofList (gcsKey (charsOf p) u false))
+      if z = "1" then (st, showKey (gcsUpload (charsOf p) u true))
+      else if z = "0" then (st, showKey (gcsUpload (charsOf p) u false))
       else (st, "bad-op")
     | _, _, _ => (st, "bad-op")
   | _ => (st, "bad-op")
